@@ -56,6 +56,23 @@ CLAIMED["C16"] = dict(
          "that a result reported without error/problem/warning is a finite number (numerical).",
     ref="3 C16, Appendix A")
 
+CLAIMED["C19"] = dict(
+    category="proof",
+    technique="effect/ownership analysis on the typed AST: const-only API, deep-const closure of the model "
+              "types, absence of writable static storage (AST + LLVM IR), nondeterminism reachability over "
+              "the call graph, RAII pairing",
+    text="Purity and race freedom are decided as absence of any shared writable location: every calculation "
+         "function takes its model by const reference/value; no const_cast, const-dropping cast, mutable "
+         "field or pointer/reference member exists in any class reachable from the model types (const is "
+         "deep); no static-storage variable of the repository is writable; the API's call closure (~780 "
+         "functions) reaches no nondeterminism source or process-global setter; the soft-Higgs-mass "
+         "overwrite is paired with an RAII save in every caller. This holds for all interleavings and "
+         "histories, which sampling with ThreadSanitizer cannot give.",
+    note=TRUST + "Assumes std::cerr (warnings) is the only shared object and that the Eigen/boost/libstdc++ "
+         "functions used keep no hidden mutable state; the thorough tier cross-checks the library's LLVM IR "
+         "for writable globals. Bit-identity across compilers/FPU modes is outside the program text.",
+    ref="3 C19")
+
 NOT_APPLICABLE = {
     "C03": "numerical agreement of one-loop results with an independent higher-precision evaluation over all "
            "parameter points: depends on eigen-decomposition values; no code-shape clause of its own "
